@@ -199,6 +199,7 @@ def execute(plan):
         # snapshots are reported with the directory called D again
         return {("D" + p[len(dname):] if p == dname or p.startswith(dname + "/") else p): v for p, v in snap.items()}
     with World(bmc=plan.get("dname", "D") if plan.get("bmc") else None) as w:
+        w.long_opts = bool(plan.get("long_opts"))
         w.fresh_per_run = bool(plan.get("fresh"))
         w.path_style = plan.get("path_style", "abs")
         w.rel_dot = bool(plan.get("fresh"))
